@@ -99,3 +99,25 @@ Proof.
   assert (E : added_globals graph_unsafe graph_safe = [T "debug"]) by (vm_compute; reflexivity).
   rewrite E. tauto.
 Qed.
+
+(* ---------- the same at load time ---------- *)
+(* what the script's top-level chunk sees before blockwatch fetches `validate`:
+   anything it captures there stays usable, so the claim must hold there too *)
+Lemma unset_top_sandboxed : sandboxed graph_unset_top = true.
+Proof. vm_compute. reflexivity. Qed.
+Lemma sandboxed_top_sandboxed : sandboxed graph_sandboxed_top = true.
+Proof. vm_compute. reflexivity. Qed.
+Lemma garbage_top_sandboxed : sandboxed graph_garbage_top = true.
+Proof. vm_compute. reflexivity. Qed.
+Lemma safe_top_ok : safe_mode_ok graph_safe_top = true /\ has_global graph_safe_top (T "debug") = false.
+Proof. split; vm_compute; reflexivity. Qed.
+Lemma unsafe_top_ok : unsafe_mode_ok graph_unsafe_top = true.
+Proof. vm_compute. reflexivity. Qed.
+(* nothing is reachable at load time that is not reachable at call time *)
+Definition paths_within (a b : lgraph) : bool := forallb (fun n => has_path b (ln_path n)) (lg_nodes a).
+Lemma top_within_call :
+  paths_within graph_unset_top graph_unset = true /\ paths_within graph_sandboxed_top graph_sandboxed = true /\
+  paths_within graph_garbage_top graph_garbage = true /\ paths_within graph_safe_top graph_safe = true /\
+  paths_within graph_unsafe_top graph_unsafe = true.
+Proof. repeat split; vm_compute; reflexivity. Qed.
+
